@@ -8,7 +8,7 @@ use crate::prng::Rng;
 use aidl_parser::ast::AndroidTypeKind;
 
 pub const PACKAGES: &[&str] = &["pkg", "other.pkg", "pkg.sub", "a", "a.b.c.d", "x.pkg"];
-pub const ITEM_NAMES: &[&str] = &["Foo", "XFoo", "FooX", "Bar", "Fo", "IFoo", "Foo2", "oo", "Baz"];
+pub const ITEM_NAMES: &[&str] = &["Foo", "XFoo", "FooX", "Bar", "Fo", "IFoo", "Foo2", "oo", "Baz", "Array", "Level", "foo", "FOO"];
 
 pub fn builtin_qualified() -> Vec<String> {
     [AndroidTypeKind::IBinder, AndroidTypeKind::FileDescriptor, AndroidTypeKind::ParcelFileDescriptor, AndroidTypeKind::ParcelableHolder]
@@ -133,6 +133,13 @@ pub fn project(rng: &mut Rng, cfg: &ProjCfg) -> Proj {
     }
     if heads.is_empty() {
         heads.push(("pkg".into(), "Foo".into(), ItemKind::Parcelable));
+    }
+    // very rarely the project itself ships a file under the qualified name of an Android built-in: the import then
+    // names a file in the parser, and the kind is that file's (first clause of C05)
+    if cfg.allow_collisions && rng.chance(1, 80) {
+        let b = rng.pick(&builtin_qualified()).clone();
+        let (bp, bn) = b.rsplit_once('.').unwrap();
+        heads.push((bp.to_string(), bn.to_string(), *rng.pick(&[ItemKind::Interface, ItemKind::Parcelable, ItemKind::Enum])));
     }
     let keys: Vec<String> = heads.iter().map(|h| format!("{}.{}", h.0, h.1)).collect();
     let builtins = builtin_qualified();
